@@ -27,9 +27,9 @@ import (
 	"github.com/octohelm/gengo/pkg/namer"
 	reflectx "github.com/octohelm/x/reflect"
 	"verif/harness/canon"
+	fmix "verif/harness/fixtures/mix"
 	futil2 "verif/harness/fixtures/other/util"
 	futil "verif/harness/fixtures/util"
-	fmix "verif/harness/fixtures/mix"
 	fv1 "verif/harness/fixtures/v1"
 )
 
@@ -111,6 +111,7 @@ func codePointish(r *Rng) int64 {
 		return 0x10ffff + int64(r.Intn(5)) - 2
 	}
 }
+
 var c10Floats = []float64{0, 0.5, 1, 1e21, -2.25, 3, 1e-7, math.MaxFloat32, math.SmallestNonzeroFloat64, 0.1, -0.0, 123456789.125, math.MaxFloat64}
 
 // VSpec: a value is regenerated from (root type, seed) — plain data for replays.
@@ -824,8 +825,8 @@ func init() {
 	}
 	leaves := &Stream{
 		Name: "leaves", Quick: 6000, Thorough: 60000,
-		New: func() Case { return &leafCase{} },
-		Gen: func(r *Rng, i int) Case { return genScalarLeaf(r) },
+		New:          func() Case { return &leafCase{} },
+		Gen:          func(r *Rng, i int) Case { return genScalarLeaf(r) },
 		ShrinkBudget: 40, MaxShrinks: 5,
 		Rule: "scalar leaves on their own: strings of 0–8 pieces over an alphabet of 25 (quotes, backquote, backslash, LF, CR, CRLF, TAB, NUL, DEL, BOM, U+2028, U+0085, invalid UTF-8 bytes, astral rune, %, @, $), every integer kind at its extremes and at random, float32/float64 edge values and random bit patterns (finite), booleans; rendered with snippet.Value; oracle, in-process on every case: `T(<literal>)` evaluated by go/types is a constant equal to the value (strings byte for byte)",
 	}
